@@ -216,6 +216,7 @@ def run (ctx):
     f_ok = [n for n in fgc if n in r]; u_ok = [n for n in upc if n in r]
     want_forget = reason == 'OFPPR_DELETE'
     good = (bool(f_ok) and not u_ok) if want_forget else (bool(u_ok) and not f_ok)
+    if not fgc and not upc: good = None        # neither call is written as a call site in the handler (the method is chosen as a value first): dispatch form not recognised
     ctx.ob('R-DOM', ps, "port-status %s -> %s" % (reason, '_forget' if want_forget else '_update'), good,
            "dispatch correct" if good else "with reason %s the handler reaches forget=%s update=%s" % (reason, bool(f_ok), bool(u_ok)), ps, 'D2')
   for n in fgc + upc:
